@@ -316,6 +316,13 @@ pub fn draw_run(rng: &mut Rng, case: &mut Case, reference: &[(String, Vec<u8>)],
 
     let mut plan = Plan::quiet();
     plan.draw_seed = rng.next();
+    // what a prover says when what it read is none of the emitted problems (a truncated hand-over, say):
+    // usually it gives up, sometimes it claims a proof all the same - which must never count
+    if rng.pct(35) {
+        plan.foreign.stdout = b"% SZS status Theorem for stdin\n".to_vec();
+        plan.foreign.exit = Exit::Code(0);
+        plan.foreign.class = "foreign-claims-theorem".into();
+    }
     let benign = rng.pct(75);
     if benign {
         // keep the number of scheduling steps in check for large problems
